@@ -40,6 +40,12 @@ def make_constraint(kind, lo, hi):
 def domain(n, form):
     if form == "nocond":
         return [Item(True, i) for i in range(n)]
+    if form == "typed":
+        # the solutions are the only values of the variable's type; everything else in the domain is of other types
+        out = ["x", 3]
+        for i in range(n):
+            out += [Item(True, i), object()]
+        return out
     K = FalsyItem if form == "falsy" else Item
     items = [K(False, -1)]
     for i in range(n):
@@ -55,7 +61,7 @@ def build(kind, c, form, dom):
         d = entity(x, x.ok == True)
     elif form == "setof":
         d = set_of([x], x.ok == True)
-    elif form == "nocond":
+    elif form in ("nocond", "typed"):
         d = entity(x)
     elif form == "two":
         d = entity(x, x.ok == True, x.tag >= 0)
@@ -164,36 +170,42 @@ def handle(case):
         return {"obs": [type(ex).__name__]}
     dom = domain(n, form)
     q, x = build(kind, c, form, dom)
-    if kind == "the":
-        try:
-            v = q.evaluate()
+    def observe():
+        obs = []
+        if kind == "the":
+            try:
+                v = q.evaluate()
+                if form == "setof":
+                    v = v[x]
+                obs.append("1" if (isinstance(v, Item) and v.ok) else "bad-value")
+            except Exception as ex:
+                obs.append(type(ex).__name__)
+            return obs
+        it = iter(q.evaluate())
+        seen = set()
+        for _ in range(n + 3):
+            try:
+                v = next(it)
+            except StopIteration:
+                obs.append("stop")
+                break
+            except Exception as ex:
+                obs.append(type(ex).__name__)
+                break
             if form == "setof":
                 v = v[x]
-            obs.append("1" if (isinstance(v, Item) and v.ok) else "bad-value")
-        except Exception as ex:
-            obs.append(type(ex).__name__)
-        return {"obs": obs, "the": True}
-    it = iter(q.evaluate())
-    seen = set()
-    for _ in range(n + 3):
-        try:
-            v = next(it)
-        except StopIteration:
-            obs.append("stop")
-            break
-        except Exception as ex:
-            obs.append(type(ex).__name__)
-            break
-        if form == "setof":
-            v = v[x]
-        if not isinstance(v, Item) or not v.ok:
-            obs.append("non-solution")
-        elif id(v) in seen:
-            obs.append("duplicate")
-        else:
-            seen.add(id(v))
-            obs.append(str(len(seen)))
-    return {"obs": obs}
+            if not isinstance(v, Item) or not v.ok:
+                obs.append("non-solution")
+            elif id(v) in seen:
+                obs.append("duplicate")
+            else:
+                seen.add(id(v))
+                obs.append(str(len(seen)))
+        return obs
+    first = observe()
+    # the same query object evaluated again (and a third time): the count rule holds for every evaluation
+    again = [observe(), observe()]
+    return {"obs": first, "again": again, "the": kind == "the"}
 
 
 if __name__ == "__main__":
